@@ -64,6 +64,18 @@ let () =
   register "gb.key" (fun a ->
       let (_, vid) = flags (ai a 1) in
       if vid then put (ai a 1) (sys_key (get (ai a 1)) (an a 2) (an a 3)));
+  register "gb.audio" (fun a ->
+      let (aud, _) = flags (ai a 1) in
+      if not aud then emit "audio none" else begin
+        let (_, s) = get (ai a 1) in
+        let pairs = List.rev s.s_samples in
+        let n = (List.length pairs / 63) * 63 in
+        let h = ref 7 in
+        List.iteri (fun i (l, r) ->
+            if i < n then begin
+              h := ((!h * 1000003) lxor (int_of_n l)) land 0xFFFFFFFFFF;
+              h := ((!h * 1000003) lxor (int_of_n r)) land 0xFFFFFFFFFF end) pairs;
+        emit (Printf.sprintf "audio %d %d bad=0" n !h) end);
   register "gb.set" (fun a ->
       let (c, s) = get (ai a 1) in
       put (ai a 1) ({ c with ra = an a 2; rb = an a 3; rc = an a 4; rd = an a 5; re = an a 6; rf = an a 7; rh = an a 8;
